@@ -237,7 +237,11 @@ var c14Methods = map[string][]string{"c": {"Generate", "Entropy", "Alphabet", "S
 
 func c14Base(t *rapid.T) c14Case {
 	sp := gen.CharSpec(t, gen.CharOpts{MaxLen: 10, MaxReq: 2, Small: rapid.Bool().Draw(t, "small"), NoHiBits: true})
-	for i := 0; i < 6; i++ {
+	relax := 6
+	if rapid.IntRange(0, 3).Draw(t, "keep_declined") == 0 {
+		relax = 0 // a recipe Generate declines: the error path is shared code too
+	}
+	for i := 0; i < relax; i++ {
 		if rf, b := sp.Feasibility(200, 1e-9); !rf && !b {
 			break
 		}
